@@ -396,4 +396,106 @@ structure Sim (num : Bytes → Nat) (enc : Encoder) (t₂ : Table) (st : St) (l 
   tasks : ∃ q, st.localTasks = some q ∧ TasksRel num enc t₂ q l.tasks
   gl : st.globalTasks = []
 
+/-! ## genuineness of the reference bytes (what a successful run proves about `instrFinal` / `duFinal`) -/
+
+/-- the fresh assembly of an instruction statement at `addr` over the table `t` completes and the encoder accepts the
+result: `instrFinal` is then the encoding, not the 0xBE fallback -/
+def InstrGen (enc : Encoder) (t : Table) (addr : Nat) (tpl : Instr) (args : List Arg) : Prop :=
+  ∃ fs2 b, Front.assemble ⟨addr, tpl, 0, args⟩ (frontEval t) true = (fs2, .completed) ∧ enc fs2.instr = .ok b
+
+theorem InstrGen.final {enc : Encoder} {t : Table} {addr : Nat} {tpl : Instr} {args : List Arg}
+    (h : InstrGen enc t addr tpl args) :
+    ∃ fs2 b, Front.assemble ⟨addr, tpl, 0, args⟩ (frontEval t) true = (fs2, .completed) ∧ enc fs2.instr = .ok b ∧
+      instrFinal enc t addr tpl args = b := by
+  obtain ⟨fs2, b, h1, h2⟩ := h
+  exact ⟨fs2, b, h1, h2, by simp only [instrFinal, h1, h2]⟩
+
+/-- the operand of a `.du*` statement evaluates over `t` to a constant in range: `duFinal` is then its little-endian
+bytes, not the 0xBE fallback -/
+def DuGen (t : Table) (du : DU) (a : Arg) : Prop := ∃ v, constVal t a = some v ∧ 0 ≤ v ∧ v ≤ du.max
+
+theorem DuGen.final {t : Table} {du : DU} {a : Arg} (h : DuGen t du a) :
+    ∃ v, constVal t a = some v ∧ 0 ≤ v ∧ v ≤ du.max ∧ duFinal t du a = leBytes du.size v.toNat := by
+  obtain ⟨v, h1, h2, h3⟩ := h
+  exact ⟨v, h1, h2, h3, by simp only [duFinal, h1, h2, h3, and_self, if_true]⟩
+
+/-- what the run of a queued task proves, for EVERY statement the task can stem from -/
+def GenTask (enc : Encoder) (t₂ : Table) : Task → Prop
+  | .instr i _ => ∀ tpl args t₁ c, Table.Sub t₁ t₂ → Table.NoDef t₁ →
+      Front.assemble ⟨i.st.addr, tpl, 0, args⟩ (frontEval t₁) true = (i.st, .deferred c) →
+      InstrGen enc t₂ i.st.addr tpl args
+  | .data d _ => ∀ a t₁ n, Table.Sub t₁ t₂ → Table.NoDef t₁ → evalIn t₁ a = .ok (.noSuch n d.arg) → DuGen t₂ d.du a
+  | .globalCopy .. => True
+
+/-- the fate of an instruction statement once it was met: genuine now, or queued with its first attempt on record -/
+def InstrFate (enc : Encoder) (t₂ : Table) (st' : St) (addr : Nat) (tpl : Instr) (args : List Arg) : Prop :=
+  InstrGen enc t₂ addr tpl args ∨
+  ∃ q i t₁ c, st'.localTasks = some (q ++ [.instr i false]) ∧ i.st.addr = addr ∧ Table.Sub t₁ t₂ ∧ Table.NoDef t₁ ∧
+    Front.assemble ⟨addr, tpl, 0, args⟩ (frontEval t₁) true = (i.st, .deferred c)
+
+def DuFate (t₂ : Table) (st' : St) (du : DU) (a : Arg) : Prop :=
+  DuGen t₂ du a ∨
+  ∃ q d t₁ n, st'.localTasks = some (q ++ [.data d false]) ∧ d.du = du ∧ Table.Sub t₁ t₂ ∧ Table.NoDef t₁ ∧
+    evalIn t₁ a = .ok (.noSuch n d.arg)
+
+/-- a source statement whose abstraction (`absStmt`) is not a fallback: the directive operands evaluate over `t`, the
+strings decode, the file exists; instructions satisfy `I`, `.du*` operands `D` -/
+def ElGenW (I : Nat → Instr → List Arg → Prop) (D : DU → Arg → Prop) (fs : Bytes → Option Bytes) (path : Bytes) (t : Table)
+    (c : Option Nat) (el : Element) : Prop :=
+  match el.val with
+  | .label _ => True
+  | .instruction name args => ∃ tpl x, Front.mnemonic name = some tpl ∧ c = some x ∧ I x tpl args.toList
+  | .directive name args =>
+    if name = bytesOf "addr" then ∃ a v, args.toList = [a] ∧ constVal t a = some v ∧ v.toNat < 4294967296
+    else if name = bytesOf "align" then
+      ∃ a v, args.toList = [a] ∧ constVal t a = some v ∧ 0 < v.toNat ∧ v.toNat < 4294967296
+    else if name = bytesOf "const" then ∃ n b v, args.toList = [.ident n, b] ∧ constVal t b = some v
+    else if name = bytesOf "dhex" then ∃ s d, args.toList = [.str s] ∧ dhexLoop s 0 none [] = .ok (d, none)
+    else if name = bytesOf "dstr" then ∃ s, args.toList = [.str s]
+    else if name = bytesOf "dfile" then ∃ s d, args.toList = [.str s] ∧ fs (sibling path s) = some d
+    else ∃ du a, duOf name = some du ∧ args.toList = [a] ∧ D du a
+
+/-- **genuine**: every byte the reference attributes to the statement is what the statement denotes over `t` -/
+def ElGen (fs : Bytes → Option Bytes) (enc : Encoder) (path : Bytes) (t : Table) (c : Option Nat) (el : Element) : Prop :=
+  ElGenW (InstrGen enc t) (DuGen t) fs path t c el
+
+/-- genuine now or queued -/
+def ElFate (fs : Bytes → Option Bytes) (enc : Encoder) (path : Bytes) (t₂ : Table) (c : Option Nat) (st' : St)
+    (el : Element) : Prop :=
+  ElGenW (InstrFate enc t₂ st') (DuFate t₂ st') fs path t₂ c el
+
+theorem ElGenW.mono {I I' : Nat → Instr → List Arg → Prop} {D D' : DU → Arg → Prop} {fs : Bytes → Option Bytes} {path : Bytes}
+    {t : Table} {c : Option Nat} {el : Element} (hI : ∀ x tpl args, I x tpl args → I' x tpl args)
+    (hD : ∀ du a, D du a → D' du a) (h : ElGenW I D fs path t c el) : ElGenW I' D' fs path t c el := by
+  unfold ElGenW at h ⊢
+  split
+  · trivial
+  · rename_i name args hv
+    rw [hv] at h
+    obtain ⟨tpl, x, h1, h2, h3⟩ := h
+    exact ⟨tpl, x, h1, h2, hI _ _ _ h3⟩
+  · rename_i name args hv
+    rw [hv] at h
+    simp only at h ⊢
+    by_cases h0 : name = bytesOf "addr"
+    · rw [if_pos h0] at h ⊢; exact h
+    rw [if_neg h0] at h ⊢
+    by_cases h1 : name = bytesOf "align"
+    · rw [if_pos h1] at h ⊢; exact h
+    rw [if_neg h1] at h ⊢
+    by_cases h2 : name = bytesOf "const"
+    · rw [if_pos h2] at h ⊢; exact h
+    rw [if_neg h2] at h ⊢
+    by_cases h3 : name = bytesOf "dhex"
+    · rw [if_pos h3] at h ⊢; exact h
+    rw [if_neg h3] at h ⊢
+    by_cases h4 : name = bytesOf "dstr"
+    · rw [if_pos h4] at h ⊢; exact h
+    rw [if_neg h4] at h ⊢
+    by_cases h5 : name = bytesOf "dfile"
+    · rw [if_pos h5] at h ⊢; exact h
+    rw [if_neg h5] at h ⊢
+    obtain ⟨du, a, g1, g2, g3⟩ := h
+    exact ⟨du, a, g1, g2, hD _ _ g3⟩
+
 end Trion.Asm
